@@ -114,7 +114,7 @@ class Gen:
                 return [self.minimal(ann)]
             self._depth += 1
             try:
-                return [self.minimal(ann), self.full(ann)]
+                return [self.minimal(ann), self.full(ann), self.falsy(ann)]
             finally:
                 self._depth -= 1
         if isinstance(ann, typing.ForwardRef):
@@ -159,6 +159,20 @@ class Gen:
             wire = SPEC_WIRE_NAMES.get(attr) or f.alias or attr
             out.append((attr, wire, hints.get(attr, f.annotation), f.is_required()))
         return out
+
+    def falsy(self, cls) -> Dict[str, Any]:
+        """The minimal object with every required member set to the empty / zero value of its type where that is a valid
+        value (an empty text, an empty list, 0): present, but falsy."""
+        obj = self.minimal(cls)
+        for attr, wire, ann, req in self.fields(cls):
+            if not req or typing.get_origin(ann) is typing.Literal or attr in SPEC_RANGES:
+                continue
+            if attr in ("uri", "uriTemplate", "role"):
+                continue
+            empties = [v for v in self.field_values(cls, attr, ann) if v in ("", 0, 0.0, [], {}) and v is not False and v is not None]
+            if empties:
+                obj[wire] = empties[0]
+        return obj
 
     def minimal(self, cls) -> Dict[str, Any]:
         obj = {}
